@@ -18,6 +18,9 @@
 //	         every level lies a decoy directory (with a spokfile) that the name, read as a pattern, would match: names are
 //	         names — the model does not know the option.
 //
+//	GIT <j>: level j also holds a DIRECTORY called `.git` (a nested checkout, a submodule): an entry like any other — the
+//	         climb goes on to the nearest spokfile above it.
+//
 // observation:  RES FOUND <level> | RES NOTFOUND | RES ERR | RES HANG
 //
 // Every case is built as a REAL tree in a fresh temp directory and file.Find is called on it.
@@ -127,7 +130,7 @@ func findWork(c string) string {
 	if len(f) < 6 || len(f)%2 != 0 || f[0] != "L" || f[2] != "S" || f[4] != "T" {
 		return "BAD-CASE"
 	}
-	linkAt, relFrom, caseAt, mc := -1, -1, -1, -1
+	linkAt, relFrom, caseAt, mc, gitAt := -1, -1, -1, -1, -1
 	for i := 6; i+1 < len(f); i += 2 {
 		v, err := strconv.Atoi(f[i+1])
 		if err != nil || v < 0 {
@@ -142,6 +145,8 @@ func findWork(c string) string {
 			caseAt = v
 		case "MC":
 			mc = v
+		case "GIT":
+			gitAt = v
 		default:
 			return "BAD-CASE"
 		}
@@ -209,6 +214,15 @@ func findWork(c string) string {
 		if err := populate(dirs[i], k); err != nil {
 			return "BAD-SETUP " + sup.Hx(err.Error())
 		}
+	}
+	if gitAt >= 0 {
+		if gitAt >= len(ks) {
+			return "BAD-CASE"
+		}
+		if err := os.MkdirAll(filepath.Join(dirs[gitAt], ".git", "refs"), 0o755); err != nil {
+			return "BAD-SETUP " + sup.Hx(err.Error())
+		}
+		_ = os.WriteFile(filepath.Join(dirs[gitAt], ".git", "HEAD"), []byte("ref: refs/heads/main\n"), 0o644)
 	}
 	if caseAt >= 0 {
 		if caseAt >= len(ks) {
@@ -400,6 +414,9 @@ func genVariants(w *bufio.Writer, n int, kinds []int) {
 				}
 				for mc := range mcNames {
 					fmt.Fprintf(w, "L %s S %d T %s MC %d\n", ks, s, st, mc)
+				}
+				for gi := 0; gi < n; gi++ {
+					fmt.Fprintf(w, "L %s S %d T %s GIT %d\n", ks, s, st, gi)
 				}
 				if st == "ROOT" {
 					for i0 := 0; i0 <= s; i0++ {
